@@ -1,5 +1,5 @@
 // ---- ASSUMED model of core::fmt (the sink side): a writer is something that receives text in order ----
-// `write!(f, ..)` is rewritten by rule R40 into the sequence of pieces format_args! produces; each piece either appends its whole
+// `write!(f, ..)` is rewritten by rule R50 into the sequence of pieces format_args! produces; each piece either appends its whole
 // text or fails.  ASSUMED (std): `{}` calls the argument's Display::fmt, which appends `display_text()`; `x.to_string()` is that text.
 pub mod fmt {
     use super::*;
@@ -71,7 +71,7 @@ pub proof fn lemma_utf8_len_one(c: char)
     assert(seq![c].drop_last() =~= Seq::<char>::empty());
     assert(utf8_len(Seq::<char>::empty()) == 0);
 }
-// R42: `b.as_ref()` on a Box is written `box_ref(&b)` (std: `&**self`); this one is verified, not assumed
+// R52: `b.as_ref()` on a Box is written `box_ref(&b)` (std: `&**self`); this one is verified, not assumed
 pub fn box_ref<T>(b: &Box<T>) -> (r: &T) ensures *r == **b { &**b }
 // R24-str-model: `s.len()` on a str counts the bytes of its UTF-8 encoding (ASSUMED link between std and the definition above)
 #[verifier::external_body]
